@@ -254,6 +254,8 @@ def contains(ex, st: State, cont: V, item: V, node):
         return [(st, z3.Contains(cont.e, item.e))]
     if cont.kind == 'ref':
         cls = cont.cls
+        if cls is None:
+            cls = container_cls(ex, st, cont)      # class known from the type invariants of the pre-state
         if cls in ('list', 'tuple', 'deque'):
             return [(st, z3.Contains(st.list_seq(cont), z3.Unit(st.box(item))))]
         if cls == 'dict' or isinstance(cls, tuple) and ex.ctx.is_dict_subclass(cls):
